@@ -95,16 +95,39 @@ func ParseDeviceCodeClientSecret(wwwAuthenticate string) string {
 
 // parseQuotedParam extracts a quoted parameter value (key="value") from a
 // WWW-Authenticate header value. Returns an empty string if not found.
+//
+// The auth-params are walked one at a time, so a name only ever matches a
+// whole parameter name: never the tail of a longer one (client_id inside
+// device_code_client_id) and never text inside another parameter's quoted
+// value.
 func parseQuotedParam(header, param string) string {
-	key := param + `="`
-	idx := strings.Index(header, key)
-	if idx == -1 {
-		return ""
+	rest := header
+	if sp := strings.IndexByte(rest, ' '); sp >= 0 && !strings.Contains(rest[:sp], "=") {
+		rest = rest[sp+1:] // skip the auth scheme
 	}
-	rest := header[idx+len(key):]
-	end := strings.Index(rest, `"`)
-	if end == -1 {
-		return ""
+	for {
+		rest = strings.TrimLeft(rest, " ,")
+		eq := strings.IndexByte(rest, '=')
+		if eq == -1 {
+			return ""
+		}
+		name := rest[:eq]
+		rest = rest[eq+1:]
+		if !strings.HasPrefix(rest, `"`) {
+			// An unquoted token value: not something this parser reports.
+			if end := strings.IndexAny(rest, " ,"); end >= 0 {
+				rest = rest[end:]
+				continue
+			}
+			return ""
+		}
+		end := strings.IndexByte(rest[1:], '"')
+		if end == -1 {
+			return ""
+		}
+		if name == param {
+			return rest[1 : 1+end]
+		}
+		rest = rest[end+2:]
 	}
-	return rest[:end]
 }
